@@ -28,6 +28,7 @@ LEVEL_TEXT = (
     "every exit and the shared AST is never mutated"
     "; subscript reads are ordered against operand evaluation (augmented subscript assignment reads the element before evaluating the right-hand side)"
     "; no handler converts an exception raised by script-driven code into another class; a comprehension leaves the enclosing variable of the same name (also when it lives in a closure cell) exactly as it was; `**` operands, annotated assignments and dict-display key hashing follow CPython's order and errors"
+    '; unpacking serves its targets from a fresh sequence; the target-name pre-pass accepts every target form; keyword values are evaluated before a duplicate is reported'
 )
 LEVEL_NOTE = (
     "trusted: the abstract evaluator's model of Python (cross-validated against compile()+dis for operand order), the "
